@@ -12,6 +12,7 @@ to log (columns -> AIC) and, for a third of the cases, to inject NaN AICs; the t
 model and every admissible single step with statsmodels itself.
 """
 import itertools
+import json
 import math
 import warnings
 import zlib
@@ -27,7 +28,10 @@ REQUIRED = ['kfold_partition', 'schedule_out_of_fold', 'coef_convex', 'coef_nan_
 RULE = ('SuperLearner: cells loss {L2, nloglik} x discrete {no, yes} x 1..5 candidates, two fold counts from 2..10 per '
         'cell, n random in 10..200 (n not divisible by folds in most cases), synthetic memorising spies and spies '
         'wrapping real learners (EmpiricalMeanSL, GLMSL, StepwiseSL, sklearn); plus rejected (folds > n, folds < 2), '
-        'all-zero outcome and refit streams.  StepwiseSL: cells direction x family {Gaussian, Binomial, Poisson} x '
+        'all-zero outcome and refit streams; every SuperLearner case is repeated with X / y (fit and predict) as lists '
+        'and as pandas objects with default, shifted and permuted integer labels (int and float outcome dtype) and '
+        'compared exactly with the ndarray run, the hold-out discipline being judged on the outcome values the '
+        'clones received; the stand-alone estimators get the same container variants.  StepwiseSL: cells direction x family {Gaussian, Binomial, Poisson} x '
         'order_interaction 0..2 x 1..4 columns, a third with injected NaN AICs.  distinct = distinct (cell, n, data '
         'seed); non-trivial = n mod folds != 0 or >= 2 candidates (SL); search took >= 1 step (stepwise)')
 ASSUMPTIONS = ['sklearn KFold(k, shuffle=False) yields contiguous folds, the first n mod k of size n//k + 1 (measured '
@@ -73,7 +77,8 @@ class Cand(BaseEstimator):
             from sklearn import clone
             self.inner_ = clone(self.inner).fit(X, y)
         if LOGGING[0]:
-            LOG.append({'ev': 'fit', 'cand': self.cand, 'uid': self.uid_, 'ids': list(self.train_), 'oid': self.token_})
+            LOG.append({'ev': 'fit', 'cand': self.cand, 'uid': self.uid_, 'ids': list(self.train_), 'oid': self.token_,
+                        'y': [float(v) for v in y], 'x1': [float(v) for v in X[:, 1]]})
         return self
 
     def _values(self, X, how):
@@ -176,7 +181,37 @@ def np_predict(loss, coefs, P, b):
     return 1 / (1 + np.exp(-(np.log(Q / (1 - Q)) @ coefs)))
 
 
-def run_sl(case):
+CONTAINERS = ['list', 'frame_default', 'frame_shifted', 'frame_permuted', 'series_y_permuted', 'frame_x_permuted',
+              'int_y_permuted']
+
+
+def contain(X, y, Xq, how, seed):
+    """the same data in another container: lists, pandas objects with default / shifted / permuted integer index
+    (row order unchanged: only the labels differ), integer-valued outcome as an int Series"""
+    import pandas as pd
+    if how == 'ndarray':
+        return X, y, Xq
+    if how == 'list':
+        return X.tolist(), y.tolist(), Xq.tolist()
+    n = len(y)
+    perm = np.random.default_rng(seed).permutation(n)
+    if n > 1 and np.array_equal(perm, np.arange(n)):
+        perm = np.roll(perm, 1)
+    idx = {'frame_default': np.arange(n), 'frame_shifted': np.arange(n) + n + 3}.get(how, perm)
+    qidx = np.arange(len(Xq))[::-1] + 5
+    if how in ('frame_default', 'frame_shifted', 'frame_permuted'):
+        return pd.DataFrame(X, index=idx), pd.Series(y, index=idx), pd.DataFrame(Xq, index=qidx)
+    if how == 'series_y_permuted':
+        return X, pd.Series(y, index=idx), Xq
+    if how == 'frame_x_permuted':
+        return pd.DataFrame(X, index=idx), y, pd.DataFrame(Xq, index=qidx)
+    if how == 'int_y_permuted':
+        yy = y.astype(int) if np.all(y == np.round(y)) else y
+        return X, pd.Series(yy, index=idx), Xq
+    raise KeyError(how)
+
+
+def run_sl(case, container='ndarray'):
     """fit + predict on the implementation -> dict of observables"""
     from zepid.superlearner import SuperLearner
     X, y, Xnew = sl_data(case)
@@ -188,13 +223,14 @@ def run_sl(case):
         try:
             sl = SuperLearner(cands, ['c%d' % i for i in range(len(cands))], folds=case['k'],
                               loss_function=case['loss'], discrete=case['discrete'])
-            sl.fit(X, y)
+            Xc, yc, Xqc = contain(X, y, np.vstack([Xnew, X[:5]]), container, case['data_seed'])
+            sl.fit(Xc, yc)
             out['fit_log'] = [dict(e) for e in LOG]
             out['coefs'] = [float(c) for c in sl.coefficients]
             out['perf_coefs'] = [float(c) for c in sl.est_performance['coefs']]
             out['cv_error'] = [float(c) for c in sl.est_performance['cv_error']]
             del LOG[:]
-            out['pred'] = [float(v) for v in sl.predict(np.vstack([Xnew, X[:5]]))]
+            out['pred'] = [float(v) for v in sl.predict(Xqc)]
             out['pred_log'] = [dict(e) for e in LOG]
             out['sl'] = sl
         except Exception as e:
@@ -217,6 +253,12 @@ def d_superlearner(chk, case, out, X, y, Xq):
         chk.d(got == list(range(n)), 'each row is held out (predicted out-of-fold) exactly once per candidate',
               dict(ctx, cand=c))
     fits = [e for e in ev if e['ev'] == 'fit']
+    # judged on the values actually handed to the clones: the outcomes (and covariates) a clone is trained on are
+    # those of the rows whose identifiers it is given
+    wrong = [(e['cand'], e['uid']) for e in fits
+             if e['y'] != [float(y[i]) for i in e['ids']] or e['x1'] != [float(X[i, 1]) for i in e['ids']]]
+    chk.d(not wrong, 'every clone is trained on the outcomes and covariates of exactly the rows it is given',
+          dict(ctx, offending=wrong[:5]))
     # the known unguarded case (finding C20-a) is recognised from the input side: a reference nnls on the observed
     # out-of-fold predictions returns only entries below sqrt(eps) (forced by the all-zero-outcome stream, and
     # reached naturally e.g. by leave-one-out folds on 10 binary rows)
@@ -377,6 +419,36 @@ def check_sl(chk, drv, case):
         d_superlearner(chk, case, out, X, y, Xq)
     elif out['fit_log']:
         chk.d(False, 'SuperLearner.fit / predict raised on a valid input', {'case': case, 'err': out['err']})
+    # ---- D: the same data in other containers (lists, pandas with default / shifted / permuted labels) must give
+    #      exactly the ndarray result, and the hold-out discipline is judged again on the values the clones received
+    keys = ('coefs', 'perf_coefs', 'cv_error', 'pred')
+    for how in CONTAINERS:
+        o2, _, _, _ = run_sl(case, container=how)
+        c2 = dict(case, container=how)
+        chk.count('sl_container_' + how)
+        if out['err'] is not None:
+            chk.d(o2['err'] is not None, 'a configuration rejected for arrays is rejected for every container',
+                  {'case': c2, 'err': o2['err']})
+            continue
+        if o2['err'] is not None:
+            chk.d(False, 'SuperLearner.fit / predict raised for a container holding the same data',
+                  {'case': c2, 'err': o2['err']})
+            continue
+        # np.asarray(DataFrame) is column-major, so the candidates' linear algebra (and nnls) may round differently
+        # in the last bits: agreement is required to 1e-8 relative (a mis-aligned outcome changes the first digits);
+        # lists and Series-only variants go through the same arrays and must agree exactly.  Coefficients are
+        # compared only when no two candidates are identical (nnls splits weight between identical columns arbitrarily).
+        exact = how in ('list', 'series_y_permuted', 'int_y_permuted')
+        specs = [json.dumps(c_, sort_keys=True) for c_ in case['cands']]
+        cmp_keys = keys if len(set(specs)) == len(specs) else ('cv_error', 'pred')
+        if exact:
+            same = json.dumps([o2[k_] for k_ in cmp_keys]) == json.dumps([out[k_] for k_ in cmp_keys])
+        else:
+            same = all(len(o2[k_]) == len(out[k_]) and
+                       all(close(a, b_, rtol=1e-8, atol=1e-10) for a, b_ in zip(o2[k_], out[k_])) for k_ in cmp_keys)
+        chk.d(same, 'coefficients, errors and predictions do not depend on the container of X and y',
+              {'case': c2, 'array': {k_: out[k_][:4] for k_ in keys}, 'container': {k_: o2[k_][:4] for k_ in keys}})
+        d_superlearner(chk, c2, o2, X, y, Xq)
 
 
 def check_refit(chk, case):
@@ -587,6 +659,61 @@ def check_stepwise(chk, drv, case):
               {'case': case, 'cols': out['cols'], 'alt': alt, 'alt_aic': a, 'returned': out['aic']})
 
 
+def check_estimators(chk, case):
+    """container invariance of the stand-alone candidate estimators (EmpiricalMeanSL, GLMSL, StepwiseSL): the
+    outcome as a pandas Series with default / shifted / permuted labels, and X as a DataFrame where the estimator
+    takes one (StepwiseSL indexes X[:, cols], i.e. arrays only), must give exactly the ndarray result"""
+    import pandas as pd
+    import statsmodels.api as sm
+    from zepid.superlearner import EmpiricalMeanSL, GLMSL, StepwiseSL
+    r = np.random.default_rng(case['data_seed'])
+    n = case['n']
+    X = np.round(r.normal(size=(n, 3)), 3)
+    lin = 0.3 + 0.8 * X[:, 0] - 0.5 * X[:, 2]
+    binary = case['family'] == 'binomial'
+    y = (r.uniform(size=n) < 1 / (1 + np.exp(-lin))).astype(float) if binary else np.round(lin + r.normal(size=n), 3)
+    Xq = np.round(r.normal(size=(7, 3)), 3)
+    perm = np.roll(np.arange(n), 1) if n < 3 else r.permutation(n)
+    fam = (sm.families.family.Binomial if binary else sm.families.family.Gaussian)
+
+    def make(name):
+        return {'mean': lambda: EmpiricalMeanSL(), 'glm': lambda: GLMSL(family=fam()),
+                'step_b': lambda: StepwiseSL(family=fam(), selection='backward', order_interaction=1),
+                'step_f': lambda: StepwiseSL(family=fam(), selection='forward', order_interaction=0)}[name]()
+
+    def go(name, Xa, ya, Xqa):
+        with warnings.catch_warnings():
+            warnings.simplefilter('ignore')
+            try:
+                e = make(name).fit(Xa, ya)
+                return [float(v) for v in np.asarray(e.predict(Xqa))] + \
+                    ([float(c) for c in e.cols_optim] if name.startswith('step') else [])
+            except Exception as ex:
+                return '%s: %s' % (type(ex).__name__, str(ex)[:80])
+
+    chk.case(case, ('EST', case['family'], case['data_seed']))
+    for name in ('mean', 'glm', 'step_b', 'step_f'):
+        base = go(name, X, y, Xq)
+        variants = {'series_default': (X, pd.Series(y), Xq),
+                    'series_shifted': (X, pd.Series(y, index=np.arange(n) + n + 3), Xq),
+                    'series_permuted': (X, pd.Series(y, index=perm), Xq),
+                    'series_int_permuted': (X, pd.Series(y.astype(int) if binary else y, index=perm), Xq)}
+        if not name.startswith('step'):
+            variants['frame_permuted'] = (pd.DataFrame(X, index=perm), pd.Series(y, index=perm),
+                                          pd.DataFrame(Xq, index=np.arange(7)[::-1] + 5))
+        for how, (Xa, ya, Xqa) in variants.items():
+            got = go(name, Xa, ya, Xqa)
+            chk.count('est_container')
+            if how.startswith('frame'):      # column-major np.asarray(DataFrame): last-bit differences allowed
+                ok = isinstance(base, list) and isinstance(got, list) and len(got) == len(base) and \
+                    all(close(a, b_, rtol=1e-8, atol=1e-10) for a, b_ in zip(got, base))
+            else:
+                ok = isinstance(base, list) and json.dumps(got) == json.dumps(base)
+            chk.d(ok, 'stand-alone estimator: fit/predict do not depend on the container of X and y',
+                  {'case': dict(case, estimator=name, container=how), 'array': base if not isinstance(base, list)
+                   else base[:4], 'container': got if not isinstance(got, list) else got[:4]})
+
+
 def make_sw_case(rng, d, fam, order, q, nan_rate):
     return {'kind': 'sw', 'dir': d, 'family': fam, 'order': int(order), 'q': int(q),
             'n': int(rng.integers(30, 120)), 'nan_rate': int(nan_rate), 'data_seed': int(rng.integers(0, 2 ** 31))}
@@ -613,11 +740,15 @@ def run(chk, drv, rng, tier):
 
     def check_refit_(c):
         guarded(chk, check_refit, chk, c)
-    return _run(chk, drv, rng, tier, check_sl_, check_stepwise_, check_refit_)
+    _run(chk, drv, rng, tier, check_sl_, check_stepwise_, check_refit_)
+    for i in range(6 if tier == 'quick' else 60):
+        guarded(chk, check_estimators, chk, {'kind': 'est', 'family': ('gaussian', 'binomial')[i % 2],
+                                             'n': int(rng.integers(25, 90)),
+                                             'data_seed': int(rng.integers(0, 2 ** 31))})
 
 
 def _run(chk, drv, rng, tier, check_sl_, check_stepwise_, check_refit_):
-    reps = 3 if tier == 'quick' else 120
+    reps = 3 if tier == 'quick' else 40
     for rep in range(reps):
         for loss in ('l2', 'nloglik'):
             for discrete in (False, True):
@@ -659,8 +790,11 @@ def replay(rec):
             print('no replayable case for', f.get('what'))
             continue
         print('replaying', case)
+        case = {k_: v for k_, v in case.items() if k_ not in ('container', 'estimator')}
         if case['kind'] == 'sw':
             check_stepwise(chk, drv, case)
+        elif case['kind'] == 'est':
+            check_estimators(chk, case)
         elif 'second fit' in (f.get('what') or ''):
             check_refit(chk, case)
         else:
